@@ -6,10 +6,12 @@
 #include "esl_stack.h"
 #include "esl_quicksort.h"
 #include "esl_random.h"
+#include <math.h>
 
 extern int esl_heap_Validate(ESL_HEAP *hp, char *errbuf);
 
-static ESL_KEYHASH *KH;
+static ESL_KEYHASH *KH, *KH2;
+static int RBEXP;   /* tree keys are ldexp(k, RBEXP): a monotone injective map of the protocol's integers into the doubles */
 static ESL_HEAP *HP;
 static ESL_RED_BLACK_DOUBLEKEY *RB;
 static ESL_STACK *ST; static char STYPE = 'i';
@@ -17,10 +19,11 @@ static ESL_STACK *ST; static char STYPE = 'i';
 static uint64_t fnv(uint64_t h, uint64_t x) { return (h ^ x) * 0x100000001b3ULL; }
 #define FNV0 0xcbf29ce484222325ULL
 
-static void h_case_begin(void) { KH = esl_keyhash_Create(); HP = esl_heap_ICreate(eslHEAP_MIN); RB = NULL; ST = esl_stack_ICreate(); STYPE = 'i'; }
+static void h_case_begin(void) { RBEXP = 0; KH2 = NULL; KH = esl_keyhash_Create(); HP = esl_heap_ICreate(eslHEAP_MIN); RB = NULL; ST = esl_stack_ICreate(); STYPE = 'i'; }
 static void h_case_end(void)
 {
   if (KH) esl_keyhash_Destroy(KH); KH = NULL;
+  if (KH2) esl_keyhash_Destroy(KH2); KH2 = NULL;
   if (HP) esl_heap_Destroy(HP); HP = NULL;
   if (RB) esl_red_black_doublekey_Destroy(RB); RB = NULL;
   if (ST) esl_stack_Destroy(ST); ST = NULL;
@@ -57,7 +60,7 @@ static int rb_badlink;
 static void rb_show(ESL_RED_BLACK_DOUBLEKEY *t)
 {
   if (!t) { ob_add("."); return; }
-  ob_add("(%s%lld ", t->color == ESL_RED_BLACK_COLOR_RED ? "R" : (t->color == ESL_RED_BLACK_COLOR_BLACK ? "B" : "?"), (long long) t->key);
+  ob_add("(%s%lld ", t->color == ESL_RED_BLACK_COLOR_RED ? "R" : (t->color == ESL_RED_BLACK_COLOR_BLACK ? "B" : "?"), (long long) ldexp(t->key, -RBEXP));
   if (t->small && t->small->parent != t) rb_badlink++;
   if (t->large && t->large->parent != t) rb_badlink++;
   rb_show(t->small); ob_add(" "); rb_show(t->large); ob_add(")");
@@ -69,7 +72,7 @@ static uint64_t rb_hash(ESL_RED_BLACK_DOUBLEKEY *t, uint64_t h, int *n)
   if (t->small && t->small->parent != t) rb_badlink++;
   if (t->large && t->large->parent != t) rb_badlink++;
   h = fnv(h, t->color == ESL_RED_BLACK_COLOR_RED ? 1 : 2);
-  h = fnv(h, (uint64_t)(int64_t) t->key);
+  h = fnv(h, (uint64_t)(int64_t) ldexp(t->key, -RBEXP));
   h = rb_hash(t->small, h, n);
   return rb_hash(t->large, h, n);
 }
@@ -158,7 +161,13 @@ static void h_op(void)
   } else if (!strcmp(op, "kh_clone")) {
     ESL_KEYHASH *nw = esl_keyhash_Clone(KH);
     if (!nw) { h_out("emem"); return; }
-    esl_keyhash_Destroy(KH); KH = nw;     /* continue on the clone; a clone sharing memory with the original dies under ASan */
+    if (KH2) esl_keyhash_Destroy(KH2);    /* a clone sharing memory with its original dies here under ASan */
+    KH2 = nw;                             /* the clone goes to the second slot; `kh_swap` makes it current */
+    h_out("ok");
+  } else if (!strcmp(op, "kh_swap")) {
+    ESL_KEYHASH *t = KH; 
+    if (KH2 == NULL) { h_out("bad-op"); return; }
+    KH = KH2; KH2 = t;
     h_out("ok");
   } else if (!strcmp(op, "kh_sizes")) {
     h_out("ok hashsize=%u kalloc=%d salloc=%d sn=%d", KH->hashsize, KH->kalloc, KH->salloc, KH->sn);
@@ -197,13 +206,13 @@ static void h_op(void)
   /* ------------------------------------------------ red-black tree */
   else if (!strcmp(op, "rb_new")) {
     if (RB) esl_red_black_doublekey_Destroy(RB);
-    RB = NULL; h_out("ok");
+    RB = NULL; RBEXP = (int) h_argi("exp", 0); h_out("ok");
   } else if (!strcmp(op, "rb_ins")) {
     long long *v; int n = parse_ints(h_arg("k"), &v), i; ob_reset();
     for (i = 0; i < n; i++) {
       ESL_RED_BLACK_DOUBLEKEY *node = esl_red_black_doublekey_Create(), *t;
       int64_t *c = malloc(sizeof(int64_t)); *c = v[i];
-      node->contents = c; node->key = (double) v[i];
+      node->contents = c; node->key = ldexp((double) v[i], RBEXP);
       t = esl_red_black_doublekey_insert(RB, node);
       if (t == NULL) { free(c); free(node); ob_add("d"); }
       else { RB = t; ob_add("i"); }
@@ -223,7 +232,7 @@ static void h_op(void)
   } else if (!strcmp(op, "rb_lookup")) {
     long long *v; int n = parse_ints(h_arg("k"), &v), i; ob_reset();
     for (i = 0; i < n; i++) {
-      int64_t *c = esl_red_black_doublekey_lookup(RB, (double) v[i]);
+      int64_t *c = esl_red_black_doublekey_lookup(RB, ldexp((double) v[i], RBEXP));
       ob_add(c == NULL ? "n" : (*c == v[i] ? "y" : "X"));
     }
     free(v);
@@ -234,11 +243,11 @@ static void h_op(void)
     int st = esl_red_black_doublekey_convert_to_sorted_linked(RB, &head, &tail);
     if (st != eslOK) { h_out("%s", h_status(st)); return; }
     ob_reset(); ob_add("ok desc=");
-    for (p = head, k = 0; p != NULL && k <= total; p = p->small, k++) ob_int((long long) p->key, k == 0);
+    for (p = head, k = 0; p != NULL && k <= total; p = p->small, k++) ob_int((long long) ldexp(p->key, -RBEXP), k == 0);
     if (k == 0) ob_add("-");
     if (k > total) ob_add(",cycle");
     ob_add(" asc=");
-    for (p = tail, k = 0; p != NULL && k <= total; p = p->large, k++) ob_int((long long) p->key, k == 0);
+    for (p = tail, k = 0; p != NULL && k <= total; p = p->large, k++) ob_int((long long) ldexp(p->key, -RBEXP), k == 0);
     if (k == 0) ob_add("-");
     if (k > total) ob_add(",cycle");
     h_out("%s", OB);
